@@ -279,6 +279,14 @@ def specs(tier: str) -> list[Spec]:
              lambda: wf_stop_cleanup_writer("cancel"), scripts=cancel_script, max_dev=(3 if tier == "quick" else None)),
         Spec("timeout_vs_cleanup_writer/close_raises", {"cause": "timeout", "writers": True, "adapter_close_raises": True},
              lambda: wf_stop_cleanup_writer("timeout"), wf_kw={"timeout": 10.0}, pair_time=True, max_dev=(3 if tier == "quick" else None)),
+        # a consumer that stops listening after k events and attaches again later (human-in-the-loop front ends do this)
+        *[Spec(f"normal_stop/consumer_leaves_after={k}", {"cause": "normal_stop", "consumer_leaves_after": k}, lambda: wf_chain(2),
+               max_dev=(3 if tier == "quick" else None)) for k in (1, 3, 5)],
+        Spec("cancel_chain/consumer_leaves_after=2", {"cause": "cancel", "consumer_leaves_after": 2}, lambda: wf_chain(2), scripts=cancel_script,
+             max_dev=(3 if tier == "quick" else None)),
+        Spec("stop_vs_cleanup_writer/consumer_leaves_after=4", {"cause": "stop_race", "consumer_leaves_after": 4}, wf_stop_cleanup_writer, pair=True,
+             max_dev=(3 if tier == "quick" else 5)),
+        Spec("raise_no_retry/consumer_leaves_after=2", {"cause": "raise_no_retry", "consumer_leaves_after": 2}, lambda: wf_raise(None)),
         Spec("raise_no_retry", {"cause": "raise_no_retry"}, lambda: wf_raise(None)),
         Spec("raise_no_retry_other_worker", {"cause": "raise_no_retry"}, lambda: wf_raise(None, True)),
         Spec("raise_retry_exhausted", {"cause": "raise_retry_exhausted"}, lambda: wf_raise(pol3())),
